@@ -349,7 +349,8 @@ inline void runJson(Ctx& C) {
   o.withRaw = true;
   o.nodes = atoi(C.opt("nodes", T ? "4" : "3").c_str());
   o.deepFrom = atoi(C.opt("deepfrom", "64").c_str());
-  if (T) o.deep = {100, 300};
+  o.deep = T ? std::vector<int>{13, 14, 15, 16, 17, 18, 31, 32, 33, 63, 64, 65, 100, 127, 128, 129, 254, 255, 256, 300}
+             : std::vector<int>{13, 14, 15, 16, 17, 18, 32, 33, 64, 65, 128, 129, 255, 256};
   o.exactOnly = atoi(C.opt("exact", "0").c_str());
   const size_t fullLimit = size_t(atoi(C.opt("fullcaps", T ? "2048" : "600").c_str()));
   std::vector<std::string> bounds;
